@@ -247,8 +247,10 @@ class Run:
             print("VIOLATION property=%s replay=%s%s" % (self.pid, v["replay"],
                                                          " no-failing-input-found" if v["no_input"] else ""))
             print("  what: %s" % v["text"])
-        print("%s tier=%s obligations=%d discharged=%d bounded_cases=%d violations=%d known=%d wall=%.1fs" % (
-            self.pid, self.tier, nob, ndis, cases, len(self.violations), len(self.known_hits), time.time() - self.t0))
+        for d in self.downgrades:
+            print("DOWNGRADED property=%s %s left the verifier's reach (%s): decided by its bounded stand-in in this run" % (self.pid, d["function"], str(d["reason"])[:200]))
+        print("%s tier=%s obligations=%d discharged=%d bounded_cases=%d violations=%d known=%d downgraded=%d wall=%.1fs" % (
+            self.pid, self.tier, nob, ndis, cases, len(self.violations), len(self.known_hits), len(self.downgrades), time.time() - self.t0))
         return 1 if self.violations else 0
 
 
